@@ -14,6 +14,7 @@ import shutil
 import tempfile
 
 from mbt import engine
+from drivers import common as _common
 from drivers.common import run_async
 
 GEN_SCHEMA = ('===GEN_S===\nMETA:\n  TYPE::PROTOCOL_DEFINITION\n  VERSION::"1.0"\n\nPOLICY:\n  VERSION::"1.0"\n  UNKNOWN_FIELDS::REJECT\n'
@@ -73,14 +74,14 @@ def schema_history(scls, first_content):
         sp = os.path.join(d, "specs", "schemas", "gen_r.oct.md")
         with open(sp, "w", encoding="utf-8") as f:
             f.write(PERMISSIVE)
-        run_async(ValidateTool().execute(content=first_content, schema="GEN_R"))
+        run_async(_common.tool("validate").execute(content=first_content, schema="GEN_R"))
         with open(sp, "w", encoding="utf-8") as f:
             f.write(GEN_SCHEMA.replace("GEN_S", "GEN_R"))
     elif scls == "generated_removed":
         sp = os.path.join(d, "specs", "schemas", "gen_d.oct.md")
         with open(sp, "w", encoding="utf-8") as f:
             f.write(GEN_SCHEMA.replace("GEN_S", "GEN_D"))
-        run_async(ValidateTool().execute(content=first_content, schema="GEN_D"))
+        run_async(_common.tool("validate").execute(content=first_content, schema="GEN_D"))
         os.unlink(sp)
 
 
@@ -152,7 +153,7 @@ def replay(item):
                 for f in ("corrections_only", "grammar_hint"):
                     if f in flags:
                         kw[f] = True
-                r = run_async(WriteTool().execute(**kw))
+                r = run_async(_common.tool("write").execute(**kw))
                 obs["status"] = status_of(r)
                 obs["nerrors"] = len(r.get("validation_errors") or [])
                 obs["has_name"], obs["has_version"] = "schema_name" in r, "schema_version" in r
@@ -171,14 +172,14 @@ def replay(item):
                 written = rr.exit_code == 0
             if obs["status"] == "VALIDATED" and written:
                 with open(p, encoding="utf-8") as f:
-                    r2 = run_async(ValidateTool().execute(content=f.read(), schema=schema))
+                    r2 = run_async(_common.tool("validate").execute(content=f.read(), schema=schema))
                 obs["again"] = status_of(r2)
         elif tool == "validate":
             kw = {"content": content, "schema": schema, "profile": prof}
             for f in ("fix", "diff_only", "compact", "grammar_hint", "debug_grammar"):
                 if f in flags:
                     kw[f] = True
-            r = run_async(ValidateTool().execute(**kw))
+            r = run_async(_common.tool("validate").execute(**kw))
             obs["status"] = status_of(r)
             obs["valid"] = "true" if r.get("valid") is True else ("false" if r.get("valid") is False else "-")
             obs["nerrors"] = max(len(r.get("validation_errors") or []), int(r.get("validation_error_count") or 0))
@@ -186,8 +187,8 @@ def replay(item):
             if obs["status"] == "VALIDATED":
                 canon = r.get("canonical")
                 if canon is None:
-                    canon = run_async(ValidateTool().execute(content=content, schema=schema, profile=prof, fix=("fix" in flags)))["canonical"]
-                r2 = run_async(ValidateTool().execute(content=canon, schema=schema, profile=prof))
+                    canon = run_async(_common.tool("validate").execute(content=content, schema=schema, profile=prof, fix=("fix" in flags)))["canonical"]
+                r2 = run_async(_common.tool("validate").execute(content=canon, schema=schema, profile=prof))
                 obs["again"] = status_of(r2)
         elif tool == "write":
             p = os.path.join(e["dir"], "w%d.oct.md" % os.getpid())
@@ -197,19 +198,19 @@ def replay(item):
             for f in ("lenient", "corrections_only", "grammar_hint", "debug_grammar"):
                 if f in flags:
                     kw[f] = True
-            r = run_async(WriteTool().execute(**kw))
+            r = run_async(_common.tool("write").execute(**kw))
             obs["status"] = status_of(r)
             obs["nerrors"] = len(r.get("validation_errors") or [])
             obs["has_name"], obs["has_version"] = "schema_name" in r, "schema_version" in r
             if obs["status"] == "VALIDATED" and os.path.exists(p):
                 with open(p, encoding="utf-8") as f:
                     canon = f.read()
-                r2 = run_async(WriteTool().execute(target_path=p, content=canon, schema=schema, corrections_only=True))
+                r2 = run_async(_common.tool("write").execute(target_path=p, content=canon, schema=schema, corrections_only=True))
                 obs["again"] = status_of(r2)
         elif tool == "eject":
             mode = next((f[5:] for f in flags if f.startswith("mode_")), "canonical")
             fmt = next((f[4:] for f in flags if f.startswith("fmt_")), "octave")
-            r = run_async(EjectTool().execute(content=content if ccls != "empty" else None, schema=schema, mode=mode, format=fmt))
+            r = run_async(_common.tool("eject").execute(content=content if ccls != "empty" else None, schema=schema, mode=mode, format=fmt))
             obs["status"] = status_of(r)
         elif tool == "grammar":
             kw = {"format": "json_schema" if "json_schema" in flags else "gbnf"}
@@ -217,7 +218,7 @@ def replay(item):
                 kw["content"] = GEN_SCHEMA if ccls in ("valid", "strict_only") else content
             else:
                 kw["schema"] = schema
-            r = run_async(CompileGrammarTool().execute(**kw))
+            r = run_async(_common.tool("grammar").execute(**kw))
             obs["status"] = status_of(r)
         else:
             fp = os.path.join(e["dir"], "c%d.oct.md" % os.getpid())
